@@ -47,26 +47,6 @@ Definition proj_of (r : run) : path := c_proj (r_cfg r).
 Definition out_of (r : run) : path := c_out (r_cfg r).
 Definition may_change (r : run) (q : path) : Prop := reserved (out_of r) q /\ is_source (proj_of r) q = false.
 
-(* ---- recorded class 1: on the build-script path a regular file named
-   .write_test sitting in the output directory when the run starts *)
-Definition kf_C16_write_test (r : run) (s : fs) : bool :=
-  is_build r && is_file s (out_of r ++ [n_probe]).
-
-(* ---- recorded class 2: on the build-script path a project source directly inside the
-   output directory whose name starts with generated_ or contains _generated *)
-Definition gen_affix (n : str) : bool := starts (L "generated_") n || contains (L "_generated") n.
-Definition kf_C16_source_cleanup (r : run) (s : fs) : bool :=
-  is_build r && existsb (fun n => is_source (proj_of r) (out_of r ++ [n]) && gen_affix n) (child_files s (out_of r)).
-
-Definition kf_C16 (r : run) (s : fs) : bool := kf_C16_write_test r s || kf_C16_source_cleanup r s.
-
-(* some run of the history starts in a class *)
-Fixpoint kf_C16_history (runs : list run) (s : fs) : bool :=
-  match runs with
-  | [] => false
-  | r :: rest => kf_C16 r s || kf_C16_history rest (fst (exec r s))
-  end.
-
 (* ---- oracle for one observed run: out = configured output directory, proj = project path,
    tgt = the file init was pointed at (if the run is an init),
    changed_files = regular files created, overwritten with different bytes, or deleted,
@@ -85,11 +65,3 @@ Definition c16_ok_b (out proj : path) (tgt : option path) (changed_files new_dir
 (* the changed files that the oracle rejects (reported in the evidence, used by the class matcher) *)
 Definition c16_offending (out proj : path) (tgt : option path) (changed_files : list path) : list path :=
   filter (fun q => negb (file_change_ok out proj tgt q)) changed_files.
-
-(* class matcher on an offending path: which recorded class explains it (0 = none) *)
-Definition c16_explained (out proj : path) (q : path) : nat :=
-  if path_eqb q (out ++ [n_probe]) then 1
-  else match strip_prefix out q with
-       | Some [n] => if is_source proj q && gen_affix n then 2 else 0
-       | _ => 0
-       end.
